@@ -127,6 +127,13 @@ def _init_worker():
     # make sure the code under test is imported once per worker
     import cotengra  # noqa: F401
 
+    # library code under test may itself start worker processes (e.g. the
+    # 'random-greedy' preset): allow that inside our pool workers
+    try:
+        mp.current_process()._config["daemon"] = False
+    except Exception:
+        pass
+
 
 def pmap(modname, units, nproc=None):
     nproc = nproc or NPROC
